@@ -184,6 +184,7 @@ def check(run: Run) -> None:
               "header emission is not guarded by exactly `if <label>`", file=FILE_X, node=fs.node)
     rec = [c for c in ast.walk(fs.node) if isinstance(c, ast.Call) and model.callee(fs, c) == fs.qualname]
     lvl_ok = any(kwarg(c, "level") is not None and ast.unparse(kwarg(c, "level")) == "level + 1" for c in rec)
+    section_labels(run, model)
     run.check("C09.R4", "one header level per grouping dimension", lvl_ok, "_select", "level + 1", "nested groups do not use the next header level", file=FILE_X, node=fs.node)
 
     # ---- R5
@@ -223,3 +224,44 @@ def _alias_of(fn: ast.FunctionDef, expr: ast.expr, name: str, depth: int = 0) ->
     if isinstance(expr, ast.Call) and ast.unparse(expr.func) in ("list", "tuple") and len(expr.args) == 1:
         return _alias_of(fn, expr.args[0], name, depth + 1)
     return False
+
+
+def section_labels(run: Run, model: PyModel) -> None:
+    """The SECTION group label of a note under H1 > H2 > H3 > H4 is the non-empty titles joined by the separator:
+    evaluated on abstract section objects (titles are opaque markers; only H1's title may be empty -- the section-less part)."""
+    Q = "zorg.domain.types._to_comparable_section_from_section"
+    if Q not in model.funcs:
+        run.undecided("C09.R4", "section label", f"{Q} not found")
+        return
+    mod = model.funcs[Q].module
+    sepn = mod.assigns.get("_SECTION_SEP")
+    sep = sepn.value if isinstance(sepn, ast.Constant) else None
+    if not isinstance(sep, str):
+        run.undecided("C09.R4", "section label", "_SECTION_SEP is not a string constant")
+        return
+    M = "zorg.domain.models._page"
+    I = Interp(model)
+    n = 0
+    for t1 in ("", "<t1>"):
+        for depth in (1, 2, 3, 4):
+            st = State()
+            titles = [t1, "<t2>", "<t3>", "<t4>"][:depth]
+            prev = None
+            for lvl, t in enumerate(titles, 1):
+                flds = dict(title=t)
+                if prev is not None:
+                    flds[f"h{lvl - 1}"] = prev
+                prev = st.alloc(HObj("obj", cls=f"{M}.H{lvl}", fields=flds))
+            res = I.run_function(Q, [prev], st=st)
+            want = f" {sep} ".join(t for t in titles if t)
+            got = [("raises " + v.exc) if isinstance(v, Raised) else v for v, _ in res]
+            imprecise = [x for _, s in res for x in s.imprecise]
+            n += 1
+            where = " > ".join(t or "(no H1)" for t in titles)
+            if imprecise or not all(isinstance(g, str) for g in got):
+                run.undecided("C09.R4", "section label", f"{where}: {imprecise[:2] or got}")
+                continue
+            run.check("C09.R4", f"section label of {where} is {want!r}", got == [want], "_to_comparable_section_from_section", f"{where} -> {got}",
+                      f"a note under {where} is grouped / ordered under the label {got} instead of {want!r}"
+                      + (" (a stray separator for notes whose page has no H1: the header line and the section order change)" if not t1 else ""), file="src/zorg/domain/types.py", node=model.funcs[Q].node)
+    run.floor("section label shapes", n, 8)
